@@ -9,8 +9,11 @@
    - CWatchIC: the same kind of history with IngressClass create / update (controller,
      parameters, metadata only) / delete events next to the Ingress events, evaluated on
      Model/ClassWatchIC.v whose class table changes along the history; per
-     reconciliation the batch, Links[IngressClass] and the ingresses whose host is in
-     the haproxy model. *)
+     reconciliation the batch, Links[IngressClass], the ingresses whose host or TCP
+     service port is in the haproxy model (HTTP ingresses and tcp-service-port ingresses
+     with their backend in a rule or only in spec.defaultBackend), and those of them that
+     the real tracker links to the IngressClass they name: the premise of the theorem,
+     checked after every reconciliation, before any IngressClass event needs it. *)
 From Coq Require Export String List Bool NArith.
 From HI Require Export Lib.XNs_Strs Model.ClassSel Model.ClassWatch Model.ClassWatchIC.
 Export ListNotations.
@@ -31,7 +34,7 @@ Inductive ccase :=
 | CEvents (id : N) (c : cfg) (cls : classes) (evs : list wevent) (b : obatch)
 | CWatch (id : N) (c : cfg) (cls : classes) (ops : list op) (obs : list (obatch * list string))
 | CWatchIC (id : N) (c : cfg) (ks0 : list iclass) (ops : list op2)
-           (obs : list (obatch * list string * list string)).
+           (obs : list (obatch * list string * list string * list string)).
 
 Definition case_id (x : ccase) : N :=
   match x with CDecide id _ _ _ _ _ _ _ _ _ => id | CEvents id _ _ _ _ => id | CWatch id _ _ _ _ => id | CWatchIC id _ _ _ _ => id end.
@@ -61,9 +64,13 @@ Definition same_names (a b : list string) : bool :=
 Definition obs_matches (m : batch * list string) (o : obatch * list string) : bool :=
   batch_matches (fst m) (fst o) && same_names (snd m) (snd o).
 
-Definition obs2_matches (m : batch2 * list string) (o : obatch * list string * list string) : bool :=
-  batch_matches (q_b (fst m)) (fst (fst o)) &&
-  list_eqb String.eqb (q_cl (fst m)) (snd (fst o)) &&
+(* o = (batch, Links[IngressClass], configured ingresses, configured ingresses that the real
+   tracker links to the IngressClass they name) *)
+Definition obs2_matches (m : batch2 * list string * list string)
+    (o : obatch * list string * list string * list string) : bool :=
+  batch_matches (q_b (fst (fst m))) (fst (fst (fst o))) &&
+  list_eqb String.eqb (q_cl (fst (fst m))) (snd (fst (fst o))) &&
+  same_names (snd (fst m)) (snd (fst o)) &&
   same_names (snd m) (snd o).
 
 Definition case_ok (x : ccase) : bool :=
